@@ -61,8 +61,10 @@ func Run(t *testing.T, seed uint64, prof *Profile, replay []core.Cmd, keepLog bo
 	w := &World{sim: sim, prof: prof, tmp: tmp, lock: newLockStore()}
 	w.orc = newOracle(w)
 	cur = w
+	ctlog.VerifYield = w.yield
 	defer func() {
 		cur = nil
+		ctlog.VerifYield = nil
 		for _, in := range w.insts {
 			for _, l := range in.logs {
 				func() {
@@ -273,6 +275,16 @@ func (w *World) quiesce() {
 			w.finishCrash(in, nil)
 		}
 	}
+	for _, s := range w.subs[w.admChecked:] {
+		// submissions that were parked before taking poolMu when doSubmit looked
+		if s.Source != "" && !s.admissionChecked {
+			s.admissionChecked = true
+			w.orc.checkAdmission(w.insts[s.Inst], s)
+		}
+	}
+	for w.admChecked < len(w.subs) && w.subs[w.admChecked].admissionChecked {
+		w.admChecked++
+	}
 	w.orc.checkAcks()
 	w.orc.checkPools()
 	w.orc.checkStops()
@@ -334,7 +346,7 @@ func (w *World) enabled() []core.WCmd {
 			okw = 2 // a slow node: its operations stay in flight for a long time
 		}
 		add(okw, core.Cmd{A: "rel", Op: op.ID, Out: core.OutOK})
-		if p.OpErrW > 0 && op.Kind != "cache" {
+		if p.OpErrW > 0 && op.Kind != "cache" && op.Kind != "yield" {
 			ew := p.OpErrW
 			if op.Kind == "get" && strings.HasPrefix(op.Key, "staging/") {
 				ew *= 6 // the one read recovery depends on
@@ -378,7 +390,13 @@ func (w *World) enabled() []core.WCmd {
 				if pend > 0 {
 					wt = 45
 				}
-				if len(parked) > 0 && p.StallW == 0 && p.SlowW == 0 && p.Instances == 1 {
+				busy := 0
+				for _, op := range parked {
+					if op.Kind != "yield" {
+						busy++ // a goroutine waiting for its turn at poolMu is not an operation in flight
+					}
+				}
+				if busy > 0 && p.StallW == 0 && p.SlowW == 0 && p.Instances == 1 {
 					wt = 0 // fault-free: time does not pass while operations are in flight
 				}
 				add(wt, core.Cmd{A: "tick", I: in.idx})
@@ -509,7 +527,7 @@ func (w *World) exec(c core.Cmd) bool {
 		}
 		p := op.Payload.(*pendingOp)
 		out := c.Out
-		if op.Kind == "cache" {
+		if op.Kind == "cache" || op.Kind == "yield" {
 			w.sim.Release(op, core.OutOK)
 			return true
 		}
@@ -711,7 +729,10 @@ func (w *World) doSubmit(in *Instance, it *Item, low bool, c core.Cmd) *Submissi
 		restore()
 	}
 	s.PoolLenAfter, s.LowAfter = poolInfo(in.log)
-	w.orc.checkAdmission(in, s)
+	if s.Source != "" {
+		s.admissionChecked = true
+		w.orc.checkAdmission(in, s)
+	}
 	return s
 }
 
@@ -824,7 +845,7 @@ func (w *World) epilogue() {
 		if ops := w.liveParked(); len(ops) > 0 {
 			op := ops[0]
 			pp := op.Payload.(*pendingOp)
-			if op.Kind != "cache" {
+			if op.Kind != "cache" && op.Kind != "yield" {
 				w.apply(w.insts[op.Inst], op.Inc, op.Kind, op.Key, pp, true)
 			}
 			sim.Release(op, core.OutOK)
